@@ -16,6 +16,18 @@ fn sub(p: usize, s: usize) -> String {
     format!("projects/p{}/subscriptions/s{}", p, s)
 }
 
+/// Project of every name of the pool, for the specification's listing filter.
+fn proj_map() -> Value {
+    let mut m = serde_json::Map::new();
+    for p in 1..=2usize {
+        for k in 1..=4usize {
+            m.insert(topic(p, k), json!(format!("p{}", p)));
+            m.insert(sub(p, k), json!(format!("p{}", p)));
+        }
+    }
+    Value::Object(m)
+}
+
 struct Profile {
     clients: usize,
     ops: usize,
@@ -180,7 +192,7 @@ pub async fn run(seed: u64, profile_name: &str) -> Vec<Value> {
 
     let mut events = vec![json!({
         "k": "reset", "i": -1, "t": 0, "run": format!("{}-{}", profile_name, seed), "cap": cap, "seed": seed,
-        "meta": {"profile": profile_name, "phase": phase},
+        "meta": {"profile": profile_name, "phase": phase, "clock": "paused", "proj": proj_map()},
     })];
     events.extend(world.take_events());
     deltio::verif::install_local(None);
